@@ -296,3 +296,125 @@ Print Assumptions c15_interleaved_satisfiable.
 Print Assumptions c15_index_n_refused_refuted_as_found.
 Print Assumptions c15_no_fault_refuted_as_found.
 Print Assumptions c15_inv_refuted_as_found.
+
+(* ======================================================================================
+   Session 5 (package H): any number of objects with conversions between them against the
+   ABSTRACT machine in which vnadata_convert is one operation on arrays; the remaining accessors.
+   Models: Data/TwoObjModel.v (concrete machine `nstep` over identifiers -> DataModel states,
+   quirks = fixed, repair DD2 in the code; abstract machine `astep` over identifiers -> arrays with
+   `spec_convert`), Data/AccessorsModel.v.  Lemmas: Data/TwoObjProofs.v, Data/AccessorsProofs.v. *)
+Require Import String.
+Require Import LV.Data.TwoObjModel LV.Data.TwoObjProofs LV.Data.AccessorsModel LV.Data.AccessorsProofs
+               LV.Data.ConvertTheorems.
+
+(* every object satisfies the representation invariant after every history of container
+   operations on any object (any argument values, short caller vectors included), conversions in
+   any direction (dst = src included) and free + alloc *)
+Theorem c15_machine_invariant : forall (V : Type) (vzero vdef : V) conv l i,
+  Inv V vzero vdef (nrun V vzero vdef conv (ninit V vzero vdef) l i).
+Proof. exact nrun_inv_init. Qed.
+Print Assumptions c15_machine_invariant.
+
+(* one step from any valid state related to any abstract state: same outcome, related states;
+   the abstract view of vnadata_convert(src, dst, t) is "dst becomes spec_convert (src)" *)
+Theorem c15_machine_refines_step : forall (V : Type) (vzero vdef : V) conv s A m,
+  NInv V vzero vdef s -> NRef V s A -> nvec_ok V A m ->
+  snd (nstep V vzero vdef conv s m) = snd (astep V vzero vdef conv A m) /\
+  NRef V (fst (nstep V vzero vdef conv s m)) (fst (astep V vzero vdef conv A m)).
+Proof. exact nstep_refines. Qed.
+Print Assumptions c15_machine_refines_step.
+
+(* HEADLINE: for every history over any number of objects in which every vector handed to a vector
+   setter has the documented length, the outcomes (return class, error reports, payload of every
+   getter) of the concrete machine are those of the abstract machine, and every object's logical
+   contents are the abstract array *)
+Theorem c15_machine_refines_abstract : forall (V : Type) (vzero vdef : V) conv l,
+  nvecs_ok V vzero vdef conv (ainit V vzero vdef) l ->
+  ntrace V vzero vdef conv (ninit V vzero vdef) l = atrace V vzero vdef conv (ainit V vzero vdef) l /\
+  NRef V (nrun V vzero vdef conv (ninit V vzero vdef) l) (arun V vzero vdef conv (ainit V vzero vdef) l).
+Proof. exact machine_refines_abstract. Qed.
+Print Assumptions c15_machine_refines_abstract.
+
+(* ... so the single-object container theorems apply to every object after every such history *)
+Theorem c15_machine_object_trace : forall (V : Type) (vzero vdef : V) conv l i ops,
+  nvecs_ok V vzero vdef conv (ainit V vzero vdef) l ->
+  vecs_ok V vzero vdef (arun V vzero vdef conv (ainit V vzero vdef) l i) ops ->
+  trace_chk V vzero vdef (nrun V vzero vdef conv (ninit V vzero vdef) l i) ops =
+  spec_trace V vzero vdef (arun V vzero vdef conv (ainit V vzero vdef) l i) ops.
+Proof. exact interleaved_object_trace. Qed.
+Print Assumptions c15_machine_object_trace.
+
+(* the only access outside an allocation in any valid state: reading past a short caller vector *)
+Theorem c15_machine_fault_iff : forall (V : Type) (vzero vdef : V) conv s m,
+  NInv V vzero vdef s ->
+  (o_ret V (snd (nstep V vzero vdef conv s m)) = RFault <->
+   exists i o, m = NOn V i o /\ short_vector V (s i) o = true).
+Proof. exact nstep_fault_iff. Qed.
+Print Assumptions c15_machine_fault_iff.
+
+(* the two-object machine that the extracted driver of the correspondence executes is this machine
+   on the identifiers 0 and 1 *)
+Theorem c15_two_object_machine_embeds : forall (V : Type) (vzero vdef : V) conv s m,
+  mshort V s m = false ->
+  let ns := embed_state V vzero vdef s in
+  let r := mstep V vzero vdef fixed true conv s m in
+  (forall k, nrun V vzero vdef conv ns (embed_op V m) k = embed_state V vzero vdef (fst r) k) /\
+  last (ntrace V vzero vdef conv ns (embed_op V m)) (ok V) = snd r.
+Proof. exact two_object_machine_embeds. Qed.
+Print Assumptions c15_two_object_machine_embeds.
+
+(* non-vacuity: three objects, conversions out of place, in place and as a copy, free + alloc *)
+Theorem c15_machine_satisfiable : forall (V : Type) (vzero vdef : V) conv,
+  nvecs_ok V vzero vdef conv (ainit V vzero vdef) (example_nhistory V vzero vdef) /\
+  let A := arun V vzero vdef conv (ainit V vzero vdef) (example_nhistory V vzero vdef) in
+  (a_ty V (A 0), a_rows V (A 0), a_freqs V (A 0)) = (VUNDEF, 0, 0) /\
+  (a_ty V (A 1), a_rows V (A 1), a_cols V (A 1), a_freqs V (A 1), a_perf V (A 1)) = (VZIN, 1, 2, 1, true) /\
+  (a_ty V (A 2), a_rows V (A 2), a_cols V (A 2), a_freqs V (A 2), a_perf V (A 2)) = (VZIN, 1, 2, 1, true) /\
+  a_dat V (A 1) 0 1 = vdef /\ a_fv V (A 1) 0 = 5%Z /\ a_fz0 V (A 1) 0 0 = vzero /\
+  (let r := conv (FN VS VZ) 2 [vdef; vzero; vzero; vdef] [vzero; vdef] in
+   a_dat V (A 2) 0 0 =
+     nth 0 (conv (FIN VZ) 2 [nth 0 r vzero; nth 1 r vzero; nth 2 r vzero; nth 3 r vzero] [vzero; vdef]) vzero) /\
+  atrace V vzero vdef conv (ainit V vzero vdef) (example_nhistory V vzero vdef) = repeat (ok V) 9.
+Proof. exact machine_example. Qed.
+Print Assumptions c15_machine_satisfiable.
+
+(* vnadata_alloc_and_init: accepted exactly when the type code is valid, the dimensions are
+   non-negative and fit the type and rows * columns <= INT_MAX; the object is valid and entirely
+   initial (0, 0, 50 ohm, ordinary mode, default options); otherwise NULL and one error report *)
+Theorem c15_alloc_and_init : forall (V : Type) (vzero vdef : V) tz r c f,
+  match resize_cond tz r c f with
+  | Some t => exists d, alloc_and_init V vzero vdef tz r c f = (Some d, ok V) /\ Inv V vzero vdef d /\
+                        arr_eq V (abs V d) (fresh_arr V vzero vdef t (Z.to_nat r) (Z.to_nat c) (Z.to_nat f))
+  | None => alloc_and_init V vzero vdef tz r c f = (None, fail V)
+  end.
+Proof. exact alloc_and_init_spec. Qed.
+Print Assumptions c15_alloc_and_init.
+
+(* vnadata_get_type_name: NULL exactly outside 0..10, different codes have different names *)
+Theorem c15_type_name_null_iff : forall tz, type_name tz = None <-> (tz < 0 \/ 10 < tz)%Z.
+Proof. exact type_name_null_iff. Qed.
+Print Assumptions c15_type_name_null_iff.
+Theorem c15_type_name_injective : forall a b s, type_name a = Some s -> type_name b = Some s -> a = b.
+Proof. exact type_name_injective. Qed.
+Print Assumptions c15_type_name_injective.
+
+(* the format: vector + cached string as coded.  In every history of vnadata_set_format calls
+   (clearing and refused calls included) on any number of objects and conversions between
+   different objects, vnadata_get_format of every object is the last accepted argument of that
+   object (NULL after a clear), conversions copying it - i.e. the single field `fmt` of DataModel *)
+Theorem c15_format_histories : forall (tok : Type) l i,
+  get_format_c tok (frun tok false (fun _ => f_new tok) l i) = arunf tok (fun _ => None) l i.
+Proof. exact format_histories. Qed.
+Print Assumptions c15_format_histories.
+
+(* ... which the variant that keeps the old string when the vector becomes empty violates (set,
+   clear, convert into a second object: both objects report the cleared format) *)
+Theorem c15_format_stale_string_refuted : forall (tok : Type) (t : tok),
+  let l := [FSet tok 0 (Some [Some t]); FSet tok 0 None; FCarry tok 0 1] in
+  arunf tok (fun _ => None) l 0 = None /\ arunf tok (fun _ => None) l 1 = None /\
+  get_format_c tok (frun tok true (fun _ => f_new tok) l 0) = Some [t] /\
+  get_format_c tok (frun tok true (fun _ => f_new tok) l 1) = Some [t] /\
+  get_format_c tok (frun tok false (fun _ => f_new tok) l 0) = None /\
+  get_format_c tok (frun tok false (fun _ => f_new tok) l 1) = None.
+Proof. exact stale_string_refuted. Qed.
+Print Assumptions c15_format_stale_string_refuted.
